@@ -13,6 +13,7 @@ CONSTANTS
   Classes <- AllClasses
   Defect_PruneAfterFailedIngest = TRUE
   Defect_PruneFlagSkipsLatestCheck = FALSE
+  Defect_LogIdFromTopicUnchecked = FALSE
 PROPERTIES
   MC_C04_DeletesOnlyByValidPrune
 VIEW NoHistView
